@@ -27,7 +27,9 @@ import term
 
 PROPERTY = "C11"
 
-# CODE VARIANT FLAGS — the value that matches TODAY's code in /repo (see `Cfg` in Model/Conc.lean)
+# CODE VARIANT FLAGS — the value that matches the code in /repo as it is now (see `Cfg` in Model/Conc.lean).  STOP_TAIL_UNLOCKED = 1 is NOT
+# a defect waiting for its fix: it is the recorded known finding progress-stop-tail-vs-start (known_findings.txt; no small safe repair), so 1
+# stays the value that matches /repo.
 STOP_TAIL_UNLOCKED = int(os.environ.get("VERIF_C11_STOP_TAIL_UNLOCKED", "1"))   # 1: Progress.stop() erases a transient display and resets _live_render._shape AFTER releasing its lock
 # (Finding F22, the stale erase count, has no small repair and therefore no repaired variant in the model:
 #  Props/C11.lean carries `live_screen_under_schedules_partial` and witnesses instead.)
@@ -571,8 +573,8 @@ MANIFEST = {
     "buffer) + finished_thread_flushed, combined in write_per_print (finished thread: every piece exactly once in its writes / "
     "captures, and the write holding it is that thread's, one operation's); capture_isolated; record_order_eq_file_order; live_screen_under_schedules_partial (sessions "
     "whose frames all have one height: replaying the file in file order shows the printed lines then the frame of the last write, "
-    "via C10's run_hooked); print_vs_taller_refresh_breaks_screen = machine-checked witness schedule for the general screen "
-    "statement (finding F22).  Tie: real threads under a deterministic scheduler (harness/sched.py; yield points: every lock "
+    "via C10's run_hooked); old_print_vs_taller_refresh_breaks_screen = machine-checked witness schedule for the general screen "
+    "statement (finding F22).  16 theorems in all.  Tie: real threads under a deterministic scheduler (harness/sched.py; yield points: every lock "
     "operation, file.write, access to _render_hooks / record buffer / _live_render._shape / renderable, and in line mode every source "
     "line of the five modules); every recorded trace of shared accesses is replayed on the model (trace inclusion) with equal "
     "observables (hook seen, erase height, shape, renderable, bytes of every write, captures, export_text); schedules: all with <= 1 "
@@ -583,10 +585,12 @@ MANIFEST = {
     "note": "Start/stop races: several threads may call start()/stop() of a Live or Progress at once (fixed + random scenarios); direct "
     "evaluation: hook stack depth <= 1 at all times, cursor hidden once, sys.stdout/stderr wrapped once, after stop depth 0 / cursor "
     "visible / a print draws no frame.  Line probes preempt a printing thread at every line of live_render.py / live.py.  Variant flag "
-    "stopTailUnlocked (today 1): Progress.stop erases / resets _shape after releasing its lock (witness "
-    "old_progress_stop_tail_races_start); repaired by pending_fixes/C11-progress-stop-tail-outside-lock.diff; the torn read of _shape in "
-    "LiveRender (TypeError under a concurrent Progress.stop) is repaired by pending_fixes/C11-progress-shape-torn-read.diff.  "
-    "PARTIAL: (1) the screen theorem is proved for constant-height sessions only; today's code breaks the general statement "
+    "stopTailUnlocked (1 = what /repo does, now as in rich 9.10.0 as found): Progress.stop erases / resets _shape after releasing its lock "
+    "(witness old_progress_stop_tail_races_start); this is the recorded known finding progress-stop-tail-vs-start (KNOWN-FINDING on every "
+    "run): pending_fixes/C11-progress-stop-tail-outside-lock.diff is a proposal that is only safe together with a done-check under the lock "
+    "in _RefreshThread.run, so it was not applied.  The torn read of _shape in LiveRender (TypeError under a concurrent Progress.stop) IS "
+    "repaired in /repo: fix 5e34007 (= pending_fixes/C11-progress-shape-torn-read.diff).  "
+    "PARTIAL: (1) the screen theorem is proved for constant-height sessions only; the code in /repo (as rich 9.10.0 as found) breaks the general statement "
     "(known findings live-print-vs-taller-refresh / -shorter-refresh / -stop / -start, one root cause: Console.print reads the display "
     "state in process_renderables and writes later outside the live lock; no small repair).  (2) Preemption inside one source line and "
     "C-level reentrancy are not exhibited; the model's atomic actions are the statement sequences between two shared accesses, and the "
